@@ -159,16 +159,12 @@ func Cmp(ei, ej Object) int {
 	ti := ei.Type()
 	tj := ej.Type()
 	if areIntFloat(ti, tj) {
-		// We have float and integer, let's sort them together.
-		var v1, v2 float64
+		// We have float and integer, let's sort them together (exactly: converting the integer to float64
+		// would make 2^53+1 equal to 2^53.0 and the order non transitive).
 		if ti == INTEGER {
-			v1 = float64(ei.(Integer).Value)
-			v2 = ej.(Float).Value
-		} else {
-			v1 = ei.(Float).Value
-			v2 = float64(ej.(Integer).Value)
+			return cmpIntFloat(ei.(Integer).Value, ej.(Float).Value)
 		}
-		return cmp.Compare(v1, v2)
+		return -cmpIntFloat(ej.(Integer).Value, ei.(Float).Value)
 	}
 	if ti < tj {
 		return -1
@@ -248,6 +244,23 @@ func Cmp(ei, ej Object) int {
 		panic(fmt.Sprintf("Unexpected type in Cmp: %s", ti))
 	}
 	return 1
+}
+
+// cmpIntFloat compares an integer and a float without rounding the integer.
+func cmpIntFloat(i int64, f float64) int {
+	switch {
+	case math.IsNaN(f):
+		return cmp.Compare(float64(i), f) // NaN sorts first, like between floats.
+	case f >= 9223372036854775808.0:
+		return -1
+	case f < -9223372036854775808.0:
+		return 1
+	}
+	t := math.Trunc(f)
+	if ti := int64(t); i != ti {
+		return cmp.Compare(i, ti)
+	}
+	return cmp.Compare(0, f-t) // same integer part: the fraction decides.
 }
 
 func CompareKeys(a, b keyValuePair) int {
